@@ -124,6 +124,29 @@ class ConstructPipeline(RewritePattern):
         if (ub := extract_cst_index(op.ub)) is not None and ub < len(stages) - 1:
             return
 
+        # a buffer that the loop body computes without the loop index (a fixed view) is the
+        # same buffer in every iteration: the index op would hand it to every stage as it
+        # is, so it can not be written in one stage and used in another one
+        variant: set[SSAValue] = set(op.body.block.args)
+        for i_op in index_ops:
+            if any(operand in variant for o in i_op.walk() for operand in o.operands):
+                variant.update(i_op.results)
+
+        def written_by(operation: Operation) -> Sequence[SSAValue]:
+            if isinstance(operation, CopyOp):
+                return (operation.destination,)
+            assert isinstance(operation, GenericOp | StreamingRegionOpBase)
+            return operation.outputs
+
+        for i_op in index_ops:
+            for result in i_op.results:
+                if result in variant or not isinstance(result.type, MemRefType):
+                    continue
+                writers = {i for i, stage in enumerate(stages) for o in stage if result in written_by(o)}
+                users = {i for i, stage in enumerate(stages) for o in stage if result in o.operands}
+                if writers and len(writers | users) > 1:
+                    return
+
         # at this point, the correct pipeline is detected, now we should create the
         # operations for it
 
